@@ -188,6 +188,8 @@ def run(cx):
     cx.guard(make_ownership, cx, repo, "R10k")
     # ---------------- R10l
     cx.guard(_r10l, cx, repo)
+    cx.rule("R10m", "a generator of output keeps no per-rendering scratch on an object that outlives the call")
+    cx.guard(_r10m, cx, repo)
 
 
 # -------------------------------------------------------------------------------------------- R10c
@@ -811,6 +813,52 @@ def _r10l(cx, repo):
                               f"(`{norm(shared[0])[:70]}`); the class fills them in place (`{norm(enclosing_stmt(deep_writes[0]))[:60]}`), so all keys share one set of inner containers "
                               "and a rendering under one palette is served under another")
     cx.at_least("R10l", "keyed cache stores examined", n_sites, 2)
+
+
+def _r10m(cx, repo):
+    """Two results of the same object may be consumed alternately (line by line).  A generator that parks a value of the current
+    rendering in an attribute of an object that outlives the call (self, a parameter, something reached from them) and reads
+    that attribute again after a suspension point lets the other consumer overwrite it in between.  Structural rule: in every
+    generator function of the rendering modules, an attribute that is stored and - after a `yield` on some path - read must
+    belong to an object allocated in the same call."""
+    from sa.guards import enclosing_loops
+    n_sites = 0
+    for rel in ("ak/ppobj.py", "ak/color.py", "ak/ghist.py", "ak/hdoc.py"):
+        if rel not in repo.modules:
+            continue
+        for _m, _q, f in repo.functions({rel}):
+            own = list(walk_local(f))
+            yields = [n for n in own if isinstance(n, (ast.Yield, ast.YieldFrom))]
+            if not yields:
+                continue
+            stores = [n for n in own if isinstance(n, ast.Attribute) and isinstance(n.ctx, ast.Store)]
+            for st in stores:
+                n_sites += 1
+                root = st.value
+                while isinstance(root, (ast.Attribute, ast.Subscript)):
+                    root = root.value
+                fresh = False
+                if isinstance(root, ast.Name) and root.id not in params(f):
+                    defs = assignments(f, root.id)
+                    fresh = bool(defs) and all(isinstance(v, ast.Call) for _s, v in defs)
+                if fresh:
+                    cx.ob("R10m", st, True, f"`{norm(st)}` is set on an object allocated in this call")
+                    continue
+
+                def after(a, b):
+                    """b can execute after a: later in the text, or both inside one loop"""
+                    if getattr(b, "lineno", 0) > getattr(a, "lineno", 0):
+                        return True
+                    la, lb = enclosing_loops(a, stop=f), enclosing_loops(b, stop=f)
+                    return any(x is y for x in la for y in lb)
+                reads = [n for n in own if isinstance(n, ast.Attribute) and isinstance(n.ctx, ast.Load) and n.attr == st.attr]
+                bad = [(y, r) for y in yields for r in reads if after(st, y) and after(y, r)]
+                ok = not bad
+                cx.ob("R10m", st, ok, f"`{norm(st)}` is not read again after a suspension point of this generator" if ok else
+                      f"`{norm(st)}` parks a value of this rendering on an object that outlives the call, and `.{st.attr}` is read after a `yield` "
+                      f"(line {getattr(bad[0][1], 'lineno', '?')}): a second result of the same object, consumed in between, overwrites it - "
+                      "line-by-line output differs from the whole, colours of one rendering leak into another")
+    cx.at_least("R10m", "attribute stores inside generator functions", n_sites, 3)
 
 
 def cache_fill_purity(cx, rule, repo):
